@@ -223,6 +223,10 @@ type job struct {
 	ID      string            `json:"id"`
 	Harness string            `json:"harness"`
 	Model   map[string]uint64 `json:"model"`
+	// Repeat > 1: schedule-dependent counterexample (data race found by the engine's
+	// scheduler): the same operation sequence is run up to Repeat times under the Go
+	// race detector, stopping at the first run that does not end normally
+	Repeat int `json:"repeat,omitempty"`
 }
 
 type jobResult struct {
@@ -283,6 +287,12 @@ func RunJobs(fns map[string]func()) {
 		fmt.Printf("VERIF-NATIVE-START %s\n", j.ID)
 		os.Stdout.Sync()
 		outcome, msg := runOne(fn)
+		for k := 1; k < j.Repeat && outcome == "OK"; k++ {
+			nameCnt = map[string]int{}
+			Trace = nil
+			Failures = nil
+			outcome, msg = runOne(fn)
+		}
 		rb, _ := json.Marshal(jobResult{ID: j.ID, Harness: j.Harness, Outcome: outcome, Msg: msg, Trace: Trace})
 		fmt.Printf("VERIF-NATIVE %s\n", rb)
 	}
